@@ -94,16 +94,32 @@ def call(f):
         return "exc"
 
 
+class DecoyK:
+    __hash__ = None
+
+    def __eq__(self, other):
+        LOG.append("DECOY:key")
+        return False
+
+
+def decoy_key(v):
+    """key function of the decoy classes: must never be called when the real classes compare"""
+    LOG.append("DECOY")
+    return DecoyK()
+
+
 _ARG = {"t": True, "f": False, "key": key_fn}
+_ARG_DECOY = {"t": True, "f": False, "key": decoy_key}
 _CLASS_CACHE: dict = {}
 
 
-def _field_kwargs(f, api):
+def _field_kwargs(f, api, arg=None):
+    arg = arg or _ARG
     kw = {}
     if f["cmp"] != "unset":
-        kw["cmp"] = _ARG[f["cmp"]]
+        kw["cmp"] = arg[f["cmp"]]
     if f["eq"] != "unset":
-        kw["eq"] = _ARG[f["eq"]]
+        kw["eq"] = arg[f["eq"]]
     return kw
 
 
@@ -143,6 +159,16 @@ def build(case):
 
     base_fields = case["fields"][:split]
     own_fields = case["fields"][split:]
+    # decoy classes of the same layout (names, keyed/unkeyed pattern, options, qualnames) with a different key
+    # function are defined first: whatever attrs memoises per layout must not leak into the real classes
+    def mkd(f):
+        return attr.ib(**_field_kwargs(f, api, _ARG_DECOY))
+    try:
+        DBase = deco(**cls_kw)(type("Base", (object,), {f["name"]: mkd(f) for f in base_fields}))
+        deco(**cls_kw)(type("C", (DBase,), {f["name"]: mkd(f) for f in own_fields}))
+        deco(**cls_kw)(type("C", (object,), {f["name"]: mkd(f) for f in case["fields"]}))
+    except Exception:  # noqa: BLE001
+        pass
     Base = deco(**cls_kw)(type("Base", (object,), {f["name"]: mk(f) for f in base_fields}))
     C = deco(**cls_kw)(type("C", (Base,), {f["name"]: mk(f) for f in own_fields}))
     if cfg.get("sub_kind", "plain") == "plain":
